@@ -13,7 +13,7 @@ theorem inv3a_reachable {s : State} (h : Reachable cfg s) : Inv3a s := by
 theorem inv3b_reachable {s : State} (h : Reachable cfg s) : Inv3b cfg s := by
   induction h with
   | init => exact inv3b_initial cfg
-  | step e hr hs ih => exact inv3b_step cfg _ _ e (inv1_reachable cfg hr) (inv3a_reachable cfg hr) ih hs
+  | step e hr hs ih => exact inv3b_step cfg _ _ e (inv1_reachable cfg hr) (inv3a_reachable cfg hr) (inv3d_reachable cfg hr) ih hs
 
 theorem inv3c_reachable {s : State} (h : Reachable cfg s) : Inv3c s := by
   induction h with
